@@ -35,6 +35,7 @@ type Solver struct {
 	log   io.Writer // optional transcript
 	// asserted since last reset (for re-checking with a second solver)
 	timeoutMS int
+	levels    int
 }
 
 func solverArgs(name string, timeoutMS int) (string, []string) {
@@ -96,8 +97,32 @@ func (s *Solver) readLine() string {
 	return strings.TrimSpace(line)
 }
 
+// AssertLevel asserts t inside a fresh push level (so that it can be popped).
+func (s *Solver) AssertLevel(t *Term) {
+	s.send("(push 1)\n")
+	s.p.pushLevel()
+	r := s.p.ref(t)
+	s.send(s.p.take())
+	s.send("(assert " + r + ")\n")
+	s.levels++
+}
+
+// PopTo pops assertion levels until n remain.
+func (s *Solver) PopTo(n int) {
+	if s.levels > n {
+		s.send(fmt.Sprintf("(pop %d)\n", s.levels-n))
+		for s.levels > n {
+			s.p.popLevel()
+			s.levels--
+		}
+	}
+}
+
+func (s *Solver) Levels() int { return s.levels }
+
 // Reset forgets all assertions and definitions.
 func (s *Solver) Reset() {
+	s.levels = 0
 	s.send("(reset)\n(set-option :produce-models true)\n")
 	if s.name == "cvc5" {
 		s.send("(set-logic QF_BV)\n")
